@@ -31,6 +31,8 @@ ScoreOrder == phase = "tags" =>
                /\ \A i \in 1..Len(tags) : obs.scores[i] > Score(p, AnyTag)
                /\ Score(p, AnyTag) = 1
                /\ Score(p, Tag("linux", 0, 0, "nonesuch")) = 0
+\* beyond the listed properties: Platform.markers() is coherent with the accepted tag family
+EnvironmentCoherent == MarkersCoherent(p)
 \* C18: platform names round-trip
 NamesRoundTrip == Parse(Str(p)) = p
 
